@@ -95,6 +95,61 @@ Section Batch.
      client, nothing is sent, the submitting call raises — in oneway mode too *)
   Definition run_batch_submit_fails (e : exn) (calls : list call) (s : state) : batch_run :=
     {| b_state := s; b_log := []; b_obs := CRaised e |}.
+
+  (* ---- a BatchProxy that is re-used: the client-side object as a state machine -------
+     The BatchProxy holds a queue of calls.  Events of a history:
+       EvQueue c        a call is queued (b.method(args))
+       EvSubmit oneway  the queue is submitted (b() / b(oneway=True) / b._pyroInvoke)
+       EvIterate k n    the caller pulls (up to) n items out of the result generator that the
+                       k-th submission of this history returned (immediately, late, partially
+                       — or never, if no such event occurs); pulling results touches neither
+                       the queue nor the remote object.
+     The queue is emptied by a submission.  [keep]: the defective variant (finding
+     reuse-after-failed-submit) keeps the queue when the submitting call raises, so the next
+     submission sends the old calls again. *)
+  Inductive event := EvQueue (c : call) | EvSubmit (oneway : bool) | EvIterate (k n : nat).
+  Inductive hitem := HQueued | HSub (calls : list call) (b : batch_run) | HIter (outs : list outcome).
+
+  Definition stream_of (o : client_obs) : list outcome := match o with CStream l => l | _ => [] end.
+  Definition raised (o : client_obs) : bool := match o with CRaised _ => true | _ => false end.
+
+  Fixpoint run_history (brk keep : bool) (evs : list event) (s : state) (queue : list call)
+           (subs : list (list outcome)) : list hitem * state :=
+    match evs with
+    | [] => ([], s)
+    | EvQueue c :: r =>
+      let (t, s') := run_history brk keep r s (queue ++ [c]) subs in (HQueued :: t, s')
+    | EvSubmit ow :: r =>
+      let b := run_batch brk ow queue s in
+      let (t, s') := run_history brk keep r (b_state b)
+                                 (if raised (b_obs b) && keep then queue else [])
+                                 (subs ++ [stream_of (b_obs b)]) in
+      (HSub queue b :: t, s')
+    | EvIterate k n :: r =>
+      let (t, s') := run_history brk keep r s queue subs in (HIter (firstn n (nth k subs [])) :: t, s')
+    end.
+
+  (* the specification of a history: every submission is exactly the calls queued since the
+     previous submission, made one by one on the object as the previous submissions left it;
+     pulling from the k-th submission's results gives the first items of that sequential run
+     (nothing for a oneway submission or one that was refused at submission) *)
+  Inductive sitem := SQueued | SSub (calls : list call) (oneway : bool) (q : run) | SIter (outs : list outcome).
+  Definition seq_refused (q : run) : bool := Nat.ltb (length (r_log q)) (length (r_outs q)).
+
+  Fixpoint spec_history (evs : list event) (s : state) (pending : list call)
+           (subs : list (list outcome)) : list sitem * state :=
+    match evs with
+    | [] => ([], s)
+    | EvQueue c :: r =>
+      let (t, s') := spec_history r s (pending ++ [c]) subs in (SQueued :: t, s')
+    | EvSubmit ow :: r =>
+      let q := run_seq pending s in
+      let (t, s') := spec_history r (r_state q) []
+                                  (subs ++ [if ow || seq_refused q then [] else r_outs q]) in
+      (SSub pending ow q :: t, s')
+    | EvIterate k n :: r =>
+      let (t, s') := spec_history r s pending subs in (SIter (firstn n (nth k subs [])) :: t, s')
+    end.
 End Batch.
 
 Arguments Ok {value exn}.
@@ -122,6 +177,20 @@ Arguments client_view {value exn}.
 Arguments run_batch {state call value exn}.
 Arguments run_batch_submit_fails {state call value exn}.
 Arguments cons_item {state call value exn}.
+Arguments EvQueue {call}.
+Arguments EvSubmit {call}.
+Arguments EvIterate {call}.
+Arguments HQueued {state call value exn}.
+Arguments HSub {state call value exn}.
+Arguments HIter {state call value exn}.
+Arguments SQueued {state call value exn}.
+Arguments SSub {state call value exn}.
+Arguments SIter {state call value exn}.
+Arguments stream_of {value exn}.
+Arguments raised {value exn}.
+Arguments seq_refused {state call value exn}.
+Arguments run_history {state call value exn}.
+Arguments spec_history {state call value exn}.
 
 (* ---- the reference object of the harness: an accumulator -------------------------
    state = the running total.  Methods (tools/harness/C11.py class Acc):
@@ -168,3 +237,5 @@ Definition acc_step (s : Z) (c : acall) : Z * outcome Z aexn :=
 
 Definition acc_seq := run_seq acc_gate acc_step.
 Definition acc_batch (brk oneway : bool) := run_batch acc_gate acc_step brk oneway.
+Definition acc_history (brk keep : bool) := run_history acc_gate acc_step brk keep.
+Definition acc_spec_history := spec_history acc_gate acc_step.
